@@ -122,11 +122,15 @@ class SiteIndex:
 # the audit is skipped for them (DESIGN.md section 7 "audit exceptions").  key: predicate on the case.
 def audit_skip(c):
     f = c["frag"]
+    if (f["form"] == "asg" and f["l"] == "gcbf") or (f["form"] == "un" and f["a"] == "gcbf" and f["op"] in ("preinc", "postinc", "predec")):
+        # gcc 12 only warns (`assignment of read-only location`) for a store to a const BIT-FIELD member (it rejects stores to other
+        # const members); 6.5.16p2 / 6.5.3.1p1 are constraints, clang rejects: these cases are audited with clang instead
+        return "clang"
     return None
 
 
-def gcc_syntax(src):
-    p = subprocess.run(["gcc", "-std=c11", "-pedantic-errors", "-fsyntax-only", "-x", "c", "-"], input=src.encode("utf-8", "surrogateescape"),
+def gcc_syntax(src, cc="gcc"):
+    p = subprocess.run([cc, "-std=c11", "-pedantic-errors", "-fsyntax-only", "-x", "c", "-"], input=src.encode("utf-8", "surrogateescape"),
                        stdout=subprocess.PIPE, stderr=subprocess.PIPE)
     err = p.stderr.decode("utf-8", "replace")
     first = next((l for l in err.split("\n") if "error" in l), "")
@@ -150,10 +154,10 @@ class AuditCache:
             pass
         self.new = 0
 
-    def get(self, src):
-        k = hashlib.sha1(src.encode("utf-8", "surrogateescape")).hexdigest()
+    def get(self, src, cc="gcc"):
+        k = hashlib.sha1(src.encode("utf-8", "surrogateescape")).hexdigest() + ("" if cc == "gcc" else ":" + cc)
         if k not in self.d:
-            self.d[k] = gcc_syntax(src)
+            self.d[k] = gcc_syntax(src, cc)
             self.new += 1
         return self.d[k]
 
@@ -315,12 +319,9 @@ def run_cases(ctx, cases, rend, objdir, sites, audit, do_audit=True, gcov=None, 
     # --- audit of the catalogue against gcc ---
     bad = []
     if todo_audit:
-        res = vlib.pmap(lambda cs: (cs[0], cs[1], audit.get(cs[1])), todo_audit, workers=16)
+        res = vlib.pmap(lambda cs: (cs[0], cs[1], audit.get(cs[1], audit_skip(cs[0]) or "gcc")), todo_audit, workers=16)
         for c, src, (grc, gmsg) in res:
-            if audit_skip(c):
-                stats["audit_skipped"] += 1
-                continue
-            stats["audited"] += 1
+            stats["audited_by_clang" if audit_skip(c) else "audited"] += 1
             want_reject = c["verdict"] == "invalid"
             if (grc != 0) != want_reject:
                 bad.append({"case": c, "gcc_rc": grc, "gcc": gmsg, "source_tail": src[-300:]})
